@@ -587,6 +587,12 @@ func (fc *fileCtx) rewriteSelect(s *ast.SelectStmt) ast.Stmt {
 	hd := "false"
 	if hasDefault {
 		hd = "true"
+	} else {
+		// a select whose cases all return is a terminating statement; the switch
+		// that replaces it is one only with a default clause (never taken: Select
+		// returns the index of a listed case)
+		clauses = append(clauses, &ast.CaseClause{List: nil, Body: []ast.Stmt{
+			&ast.ExprStmt{X: &ast.CallExpr{Fun: ast.NewIdent("panic"), Args: []ast.Expr{&ast.BasicLit{Kind: token.STRING, Value: strconv.Quote("simrt: select returned no listed case")}}}}}})
 	}
 	args := append([]ast.Expr{ast.NewIdent(hd)}, caseArgs...)
 	sw := &ast.SwitchStmt{Tag: call("simrt", "Select", args...), Body: &ast.BlockStmt{List: clauses}}
